@@ -1,6 +1,7 @@
 import Driver.Util
 import Driver.C05
 import Driver.Kernel
+import Driver.C04
 open Lean
 
 namespace Driver
@@ -8,6 +9,7 @@ namespace Driver
 def dispatch (op : String) (j : Json) : Except String Json :=
   if op.startsWith "c05." then C05.handle op j
   else if op.startsWith "kernel." then Kernel.handle op j
+  else if op.startsWith "c04." then C04.handle op j
   else throw s!"unknown op {op}"
 
 def handleLine (line : String) : String :=
